@@ -52,7 +52,8 @@ SumLen(G, recs) == FoldLeft(LAMBDA a, r : a + G.rlen[r], 0, recs)
 RecSet(recs) == {recs[i] : i \in 1..Len(recs)}
 
 Dead == [alive |-> FALSE, open |-> FALSE, buf |-> <<>>, inited |-> FALSE, curDay |-> -1, pc |-> "dead",
-         msg |-> 0, trig |-> "", rn |-> NONE, vict |-> <<>>, inClosed |-> FALSE, wrote |-> FALSE]
+         msg |-> 0, trig |-> "", rn |-> NONE, vict |-> <<>>, inClosed |-> FALSE, wrote |-> FALSE,
+         inOpen |-> FALSE, outOpen |-> FALSE, outClosed |-> FALSE]
 
 ---------------------------------------------------------------------------
 \* Ordering used by retention (removeOldFiles / findRotatedFiles): modification time, ties broken by
@@ -107,7 +108,7 @@ NeedsSys(S) ==
     \/ IsFlushPc(pc) /\ S.sk.buf # <<>> /\ S.sk.open
     \/ pc = "appW" /\ S.g.rlen[S.sk.msg] > BufCap /\ S.sk.open
     \/ pc \in {"ctor", "destroyClose", "rotClose", "rotRename", "cpOpenSrc", "cpOpenDst", "cpCloseSrc",
-               "gzOpenIn", "gzOpenOut", "gzCloseIn", "gzBody", "gzUnlink", "reopen"}
+               "gzOpenIn", "gzOpenOut", "gzCloseIn", "gzBody", "gzUnlink", "gzAny", "reopen"}
     \/ pc = "retU" /\ S.sk.vict # <<>>
 
 \* one internal step
@@ -159,6 +160,20 @@ DoInt(S, C, T) ==
 \* the labels of the libc calls the machine may make next: [c, f, t, m]
 Lab(c, f, t, m) == [c |-> c, f |-> f, t |-> t, m |-> m]
 
+\* The compression step as an observer may see it (trace validation): which of the two files is opened or
+\* closed first is the implementation's business; what is not, is that the compressed file is created after the
+\* rename, that it is complete (closed) before the original is deleted, and that the original is what it holds.
+GzAnyLabels(S) ==
+    LET rn == S.sk.rn
+        gz == GzOf(S.sk.rn)
+    IN  (IF ~S.sk.inOpen /\ ~S.sk.inClosed THEN {Lab("open", rn, NONE, "rd")} ELSE {})
+        \cup (IF S.sk.inOpen /\ ~S.sk.inClosed THEN {Lab("close", rn, NONE, "")} ELSE {})
+        \cup (IF ~S.sk.outOpen THEN {Lab("open", gz, NONE, "trunc")} ELSE {})
+        \cup (IF S.sk.outOpen /\ ~S.sk.outClosed THEN {Lab("write", gz, NONE, "")} ELSE {})
+        \cup (IF S.sk.outOpen /\ ~S.sk.outClosed /\ S.sk.wrote /\ S.sk.inOpen THEN {Lab("close", gz, NONE, "")} ELSE {})
+        \cup (IF gz \in DOMAIN S.dir /\ S.dir[gz].st = "gz" /\ S.sk.outClosed THEN {Lab("unlink", rn, NONE, "")} ELSE {})
+GzAnyQuiet(S) == (S.sk.inOpen => S.sk.inClosed) /\ (S.sk.outOpen => S.sk.outClosed)
+
 SysLabels(S) ==
     LET pc == S.sk.pc IN
     CASE IsFlushPc(pc) \/ pc = "appW" -> {Lab("write", ACTIVE, NONE, "")}
@@ -174,6 +189,7 @@ SysLabels(S) ==
                           \cup (IF S.sk.inClosed THEN {} ELSE {Lab("close", S.sk.rn, NONE, "")})
                           \cup (IF S.sk.inClosed /\ S.sk.wrote THEN {Lab("close", GzOf(S.sk.rn), NONE, "")} ELSE {})
       [] pc = "gzUnlink" -> {Lab("unlink", S.sk.rn, NONE, "")}
+      [] pc = "gzAny" -> GzAnyLabels(S)
       [] pc = "retU" -> {Lab("unlink", Head(S.sk.vict), NONE, "")}
 
 \* may this call fail in the modelled fault set?  (rename, creating the rotated copy / the compressed
@@ -232,6 +248,22 @@ DoSys(S, C, T, lab, ok) ==
             IF lab.c = "close" THEN [S EXCEPT !.sk.inClosed = TRUE]
             ELSE IF ok THEN [S EXCEPT !.dir = Without(S.dir, rn), !.sk.pc = "ret"]
             ELSE [S EXCEPT !.g.faulted = TRUE, !.sk.pc = "ret"]
+      [] pc = "gzAny" ->
+            LET gz == GzOf(rn) IN
+           (CASE lab.c = "open" /\ lab.f = rn ->
+                    IF ok THEN [S EXCEPT !.sk.inOpen = TRUE]
+                    ELSE [S EXCEPT !.g.faulted = TRUE, !.sk.inClosed = TRUE]
+              [] lab.c = "close" /\ lab.f = rn -> [S EXCEPT !.sk.inClosed = TRUE]
+              [] lab.c = "open" /\ lab.f = gz ->
+                    IF ok THEN [S EXCEPT !.dir = With(S.dir, gz, File("gzw", <<>>, T, 0)), !.g.used = @ \cup {gz},
+                                         !.sk.outOpen = TRUE]
+                    ELSE [S EXCEPT !.g.faulted = TRUE, !.sk.outOpen = TRUE, !.sk.outClosed = TRUE]
+              [] lab.c = "write" -> [S EXCEPT !.dir[gz].mt = T, !.sk.wrote = TRUE]
+              [] lab.c = "close" /\ lab.f = gz ->
+                    [S EXCEPT !.dir[gz].st = "gz", !.dir[gz].recs = S.dir[rn].recs, !.sk.outClosed = TRUE]
+              [] lab.c = "unlink" ->
+                    IF ok THEN [S EXCEPT !.dir = Without(S.dir, rn), !.sk.pc = "ret"]
+                    ELSE [S EXCEPT !.g.faulted = TRUE, !.sk.pc = "ret"])
       [] pc = "retU" ->
             LET v == Head(S.sk.vict)
             IN  IF ok THEN [S EXCEPT !.dir = Without(S.dir, v),
@@ -447,6 +479,6 @@ TypeOK ==
     /\ sk.pc \in {"dead", "idle", "ctor", "init", "startupF", "startupC", "daily", "dailyF", "dailyC", "size",
                   "sizeF", "sizeC", "app", "appF", "appW", "flushOp", "destroyF", "destroyClose", "rot", "rotF",
                   "rotClose", "rotPick", "rotRename", "cpOpenSrc", "cpOpenDst", "cpCloseSrc", "gzOpenIn",
-                  "gzOpenOut", "gzCloseIn", "gzBody", "gzUnlink", "ret", "retU", "reopen", "setDay"}
+                  "gzOpenOut", "gzCloseIn", "gzBody", "gzUnlink", "gzAny", "ret", "retU", "reopen", "setDay"}
     /\ sk.alive = (sk.pc # "dead")
 =============================================================================
